@@ -340,6 +340,21 @@ Theorem C20_source_any_blanks_satisfiable :
 Proof. exact ex_ws_script_hyps. Qed.
 Print Assumptions C20_source_any_blanks_satisfiable.
 
+(* a tuple assignment `S,D = X, Y[-1]` (accepted by the parser: one equation text carried by both assigned names): every target
+   is a node with the equation and receives every edge — C20_edges_exact with two ids on the left-hand side, at work on the
+   symbols the parser model produces for the script; the following statement reads both targets *)
+Theorem C20_tuple_assignment_instance :
+  exists syms, parse_model_nocheck ("S,D = X, Y[-1]" ++ nl_s ++ "Q = S + D[-1]") = POk syms /\
+    equations_of syms = ["S[t],D[t] = X[t], Y[t-1]"; "S[t],D[t] = X[t], Y[t-1]"; "Q[t] = S[t] + D[t-1]"] /\
+    (forall q, tokenise "S[t],D[t] = X[t], Y[t-1]" = Some q -> nids (nlhs q) = ["S[t]"; "D[t]"] /\ nids (nrhs q) = ["X[t]"; "Y[t-1]"]) /\
+    match symbols_to_graph_M syms with
+    | Ret g => in_edges g "S[t]" = ["X[t]"; "Y[t-1]"] /\ in_edges g "D[t]" = ["X[t]"; "Y[t-1]"] /\ in_edges g "Q[t]" = ["S[t]"; "D[t-1]"] /\
+               map fst (gnodes g) = ["S[t]"; "D[t]"; "X[t]"; "Y[t-1]"; "Q[t]"; "D[t-1]"]
+    | Raise _ => False
+    end.
+Proof. exact ex_tuple_assignment. Qed.
+Print Assumptions C20_tuple_assignment_instance.
+
 (* ---- hypotheses are satisfiable; what does not hold of the code as it is ---- *)
 Theorem C20_hypotheses_satisfiable :
   forallb neq_wf [ex_q1; ex_q2] = true /\
